@@ -64,6 +64,12 @@ COVER = {
     ("detail/TaskSys.h", "field", "detail::schedule_internal()::LocalTask::t", "TASK_T"): dict(b="int", thms=["schedule_internal_no_uaf_src"], ops=["int:burst", "int:nested"]),
     ("detail/TaskSys.h", "method", "detail::schedule_internal()::LocalTask::ExecuteRange", "void (enki::TaskSetPartition, uint32_t)"): dict(
         b="int", thms=["schedule_internal_no_uaf_src", "schedule_internal_nested_not_freed_on_stack_src", "schedule_once_internal"], ops=["int:burst", "int:nested"]),
+    ("detail/TaskSys.h", "class", "detail::schedule_internal()::LocalTask::ExecuteRange()::AtThreadExit", "struct"): dict(
+        b="int", thms=["schedule_internal_exit_drain_src", "schedule_internal_exit_drain_instances"], ops=["int:teardown"],
+        note="thread-exit guard of the per-thread reclaim slot (the slot itself is a plain pointer that stays usable after TLS destruction)"),
+    ("detail/TaskSys.h", "dtor", "detail::schedule_internal()::LocalTask::ExecuteRange()::AtThreadExit::<dtor>", "void ()"): dict(
+        b="int", thms=["schedule_internal_exit_drain_src", "schedule_internal_freed_once"], ops=["int:teardown", "int:parkburst"],
+        note="reclaims the last finished task at thread exit: teardown (re-init joins the workers; LeakSanitizer-clean) and parkburst's live-state oracle"),
     ("detail/TaskSys.h", "function-template", "detail::schedule_internal", "void (TASK_T &&)"): dict(
         b="int", thms=["schedule_internal_one_piece", "schedule_once_internal", "schedule_internal_task_life_src"], ops=["int:burst", "int:parkburst"]),
     ("detail/TaskSys.h", "function", "detail::initTaskSystemInternal", "void (int)"): dict(b="int", thms=["teardown_runs_everything_exactly_once_src"], ops=["int:teardown"]),
@@ -475,6 +481,8 @@ def _run(ctx):
                 for T in (1, 2, 3, 8):
                     cases = [["teardown", "reinit", str(T), str(T2), str(nt), str(d)] for d in (0, 1, 3) for T2 in ((2,) if d else (2, 1))]
                     cases += [["teardown", "exit", str(T), str(nt), str(d)] for d in (0, 2)]
+                    if T in (1, 2):      # more than the pipe holds (256): part of the burst runs inline on the caller BEFORE exit, the rest is
+                        cases += [["teardown", "exit", str(T), "300", str(d)] for d in (0, 1)]   # drained after the main thread's TLS destructors
                     for args in cases:
                         rc, lines, err = run_mode(b, args, timeout=60)
                         tl = [l for l in lines if l.startswith("TEARDOWN")]
@@ -773,7 +781,7 @@ def _run(ctx):
     ctx.cov["client_scripts"] = sorted(NGETS)
     ctx.rule = ("per backend (TBB, OpenMP, Internal, Debug; ASan+UBSan): schedule() bursts of %s closures owning heap state (exactly-once "
                 "after quiescence, caller idle); async() x %d over int/long string/vector/slow-logging type (+ outstanding futures); "
-                "chain (k closures scheduled back to back, closure i waits for closure i+1, caller only polls); teardown (internal, T in {1,2,3,8}: bursts with follow-up chains of depth 0..3 immediately followed by re-initialisation or process exit, per-task counters exactly 1); ownerthief (internal: tight loops of AsyncTask construct+get / construct+destroy / schedule+parallel_for(1): owner and thief race for the only queued item); arena (first schedule() of a functor type from inside a small tbb::task_arena, later ones from main must run within 2 s); TSan(OpenMP build): poll finished() then get() on string/vector; wakeup (one schedule() at a time, delay swept 0..100 us around the worker's spin-to-sleep transition, each closure must run within 2 s); parkburst (workers parked, 300/1000 pending closures > pipe size); nested (a scheduled closure schedules a same-type closure and waits in AsyncTask::get / parallel_for); AsyncTask<T> x %d repetitions x 6 client scripts x task durations {0,2,12} ms over 5 result types incl. a "
+                "chain (k closures scheduled back to back, closure i waits for closure i+1, caller only polls); teardown (internal, T in {1,2,3,8}: bursts with follow-up chains of depth 0..3 immediately followed by re-initialisation or process exit, per-task counters exactly 1; also bursts of 300 > 256 pipe slots before exit); ownerthief (internal: tight loops of AsyncTask construct+get / construct+destroy / schedule+parallel_for(1): owner and thief race for the only queued item); arena (first schedule() of a functor type from inside a small tbb::task_arena, later ones from main must run within 2 s); TSan(OpenMP build): poll finished() then get() on string/vector; wakeup (one schedule() at a time, delay swept 0..100 us around the worker's spin-to-sleep transition, each closure must run within 2 s); parkburst (workers parked, 300/1000 pending closures > pipe size); nested (a scheduled closure schedules a same-type closure and waits in AsyncTask::get / parallel_for); AsyncTask<T> x %d repetitions x 6 client scripts x task durations {0,2,12} ms over 5 result types incl. a "
                 "lifetime-instrumented payload whose slot trace is validated by the extracted model; destroy-while-running x %d; "
                 "one-thread schedule. non-trivial = a case with a non-trivially-constructible result type or a task outliving "
                 "the constructor, or a burst > 1" % (bursts, areps, treps, dreps))
